@@ -12,8 +12,8 @@ list.  The only exits of the C's `for (;;)` are inside its two macros:
                 `MSPACK_ERR_READ` (< 0) or `MSPACK_ERR_OK` (= 0) — wherever in a token that happens
   WRITE_BYTE    one `write(output, &window[pos], 1)`; never fails on the model's host
 
-The model renders "the function returns code e here" as `throw (.ret e)`; the state (in particular
-what has been written) is the one reached at that point.
+The model renders "the function returns code e here" as the result `Res.ret e st`; `st` (in particular
+what has been written) is the state reached at that point.
 -/
 namespace MsPack
 
@@ -26,11 +26,6 @@ end MsPack
 namespace MsPack.Lzss
 open MsPack MsPack.Generated
 
-inductive Halt
-  | ret (e : Err)       -- `return e;`
-  | fault (f : Fault)
-  deriving Repr, DecidableEq
-
 structure St (σ : Type) where
   src       : σ
   inbufSize : Nat                  -- `input_buffer_size`
@@ -39,78 +34,102 @@ structure St (σ : Type) where
   pos       : Nat                  -- `pos`
   out       : Array UInt8 := #[]   -- everything `write` has accepted, in order
 
-/-- state survives a `throw` -/
-abbrev LM (σ : Type) := ExceptT Halt (StateM (St σ))
+/-- what a piece of the decoder did: `ret e st` = the C function has executed `return e;` in state
+    `st` (in particular with `st.out` written); `ok a st` = fell through with value `a`.
+    (Explicit state passing rather than a monad stack: the round-trip proof unfolds these.) -/
+inductive Res (σ α : Type) where
+  | ret (e : Err) (st : St σ)
+  | fault (f : Fault)
+  | ok (a : α) (st : St σ)
 
 variable {σ : Type} (S : Src σ)
 
-/-- `ENSURE_BYTES` -/
-def ensureBytes : LM σ Unit := do
-  let st ← get
-  if st.inbuf.isEmpty then
-    match S.read st.src st.inbufSize with
-    | .error f => throw (.fault f)
-    | .ok (none, src) => set { st with src := src }; throw (.ret .read)       -- read < 0
-    | .ok (some [], src) => set { st with src := src }; throw (.ret .ok)      -- read == 0
-    | .ok (some got, src) => set { st with src := src, inbuf := got }
-
-/-- `ENSURE_BYTES; … *i_ptr++` -/
-def nextByte : LM σ UInt8 := do
-  ensureBytes S
-  let st ← get
+/-- `ENSURE_BYTES; … *i_ptr++`: buffer empty → `read(input, inbuf, input_buffer_size)`; a result
+    ≤ 0 returns `MSPACK_ERR_READ` (< 0) or `MSPACK_ERR_OK` (= 0) — wherever in a token that happens -/
+def nextByte (st : St σ) : Res σ UInt8 :=
   match st.inbuf with
-  | b :: rest => set { st with inbuf := rest }; pure b
-  | [] => throw (.fault (.oob "inbuf"))     -- unreachable: ensureBytes leaves a non-empty buffer
+  | b :: rest => .ok b { st with inbuf := rest }
+  | [] =>
+    match S.read st.src st.inbufSize with
+    | .error f => .fault f
+    | .ok (none, src) => .ret .read { st with src := src }        -- read < 0
+    | .ok (some [], src) => .ret .ok { st with src := src }       -- read == 0
+    | .ok (some (b :: rest), src) => .ok b { st with src := src, inbuf := rest }
 
-/-- `window[pos] = b; WRITE_BYTE; pos++; pos &= LZSS_WINDOW_SIZE - 1;` -/
-def emitByte (b : UInt8) : LM σ Unit := do
-  let st ← get
-  if h : st.pos < st.window.size then
-    set { st with window := st.window.set st.pos b, out := st.out.push b,
-                  pos := (st.pos + 1) % lzssWINDOW_SIZE }
-  else throw (.fault (.oob "window[pos]"))
+/-- `window[pos] = b; WRITE_BYTE; pos++; pos &= LZSS_WINDOW_SIZE - 1;` (`write` accepts the byte) -/
+def emitByte (st : St σ) (b : UInt8) : Res σ Unit :=
+  if st.pos < st.window.size then
+    .ok () { st with window := st.window.setIfInBounds st.pos b, out := st.out.push b,
+                     pos := (st.pos + 1) % lzssWINDOW_SIZE }
+  else .fault (.oob "window[pos]")
 
 /-- `while (len--) { window[pos] = window[mpos]; WRITE_BYTE; pos++; mpos++; (both & 4095) }` -/
-def copyMatch : Nat → Nat → LM σ Unit
-  | 0, _ => pure ()
-  | len + 1, mpos => do
-    let st ← get
+def copyMatch : Nat → Nat → St σ → Res σ Unit
+  | 0, _, st => .ok () st
+  | len + 1, mpos, st =>
     if h : mpos < st.window.size then
-      emitByte st.window[mpos]
-      copyMatch len ((mpos + 1) % lzssWINDOW_SIZE)
-    else throw (.fault (.oob "window[mpos]"))
+      match emitByte st st.window[mpos] with
+      | .ok () st => copyMatch len ((mpos + 1) % lzssWINDOW_SIZE) st
+      | .ret e st => .ret e st
+      | .fault f => .fault f
+    else .fault (.oob "window[mpos]")
 
 /-- the body of `for (i = 0x01; i & 0xFF; i <<= 1)`: `k` iterations left, `i` the current mask -/
-def tokenLoop (c : Nat) : Nat → Nat → LM σ Unit
-  | 0, _ => pure ()
-  | k + 1, i => do
+def tokenLoop (c : Nat) : Nat → Nat → St σ → Res σ Unit
+  | 0, _, st => .ok () st
+  | k + 1, i, st =>
     if c &&& i ≠ 0 then
       -- literal
-      let b ← nextByte S
-      emitByte b
+      match nextByte S st with
+      | .ret e st => .ret e st
+      | .fault f => .fault f
+      | .ok b st =>
+        match emitByte st b with
+        | .ret e st => .ret e st
+        | .fault f => .fault f
+        | .ok () st => tokenLoop c k (i <<< 1) st
     else
       -- match
-      let b0 ← nextByte S
-      let b1 ← nextByte S
-      let mpos := b0.toNat ||| ((b1.toNat &&& 0xF0) <<< 4)
-      let len := (b1.toNat &&& 0x0F) + 3
-      copyMatch len mpos
-    tokenLoop c k (i <<< 1)
+      match nextByte S st with
+      | .ret e st => .ret e st
+      | .fault f => .fault f
+      | .ok b0 st =>
+        match nextByte S st with
+        | .ret e st => .ret e st
+        | .fault f => .fault f
+        | .ok b1 st =>
+          let mpos := b0.toNat ||| ((b1.toNat &&& 0xF0) <<< 4)
+          let len := (b1.toNat &&& 0x0F) + 3
+          match copyMatch len mpos st with
+          | .ret e st => .ret e st
+          | .fault f => .fault f
+          | .ok () st => tokenLoop c k (i <<< 1) st
 
 /-- `for (;;) { ENSURE_BYTES; c = *i_ptr++ ^ invert; for (i …) … }`: every round consumes at
     least the control byte, so input length + 1 rounds of fuel suffice -/
-def mainLoop (invert : Nat) : Nat → LM σ Unit
-  | 0 => throw (.fault .hang)
-  | fuel + 1 => do
-    let cb ← nextByte S
-    let c := cb.toNat ^^^ invert      -- only bits 0..7 of `c` are ever tested
-    tokenLoop S c 8 1
-    mainLoop invert fuel
+def mainLoop (invert : Nat) : Nat → St σ → Res σ Unit
+  | 0, _ => .fault .hang
+  | fuel + 1, st =>
+    match nextByte S st with
+    | .ret e st => .ret e st
+    | .fault f => .fault f
+    | .ok cb st =>
+      -- only bits 0..7 of `c` are ever tested
+      match tokenLoop S (cb.toNat ^^^ invert) 8 1 st with
+      | .ret e st => .ret e st
+      | .fault f => .fault f
+      | .ok () st => mainLoop invert fuel st
 
 structure Out (σ : Type) where
   err     : Err
   written : Bytes
   src     : σ
+
+/-- the decoder's state on entry: ring of 0x20, `pos` 16 (18 for QBasic) below the end -/
+def initSt (src : σ) (inputBufferSize mode : Nat) : St σ :=
+  { src := src, inbufSize := inputBufferSize,
+    window := Array.replicate lzssWINDOW_SIZE (UInt8.ofNat lzssWINDOW_FILL),
+    pos := lzssWINDOW_SIZE - (if mode = lzssMODE_QBASIC then 18 else 16) }
 
 /-- `lzss_decompress` on a host whose `alloc` and `write` never fail.  `mode` is the C `int`
     (the three `LZSS_MODE_*` values are accepted, anything else is `MSPACK_ERR_ARGS`). -/
@@ -118,14 +137,10 @@ def decompress (fuel : Nat) (src : σ) (inputBufferSize : Nat) (mode : Nat) : Ex
   if inputBufferSize < 1 ∨ (mode ≠ lzssMODE_EXPAND ∧ mode ≠ lzssMODE_MSHELP ∧ mode ≠ lzssMODE_QBASIC) then
     .ok ⟨.args, [], src⟩
   else
-    let st : St σ :=
-      { src := src, inbufSize := inputBufferSize,
-        window := Array.replicate lzssWINDOW_SIZE (UInt8.ofNat lzssWINDOW_FILL),
-        pos := lzssWINDOW_SIZE - (if mode = lzssMODE_QBASIC then 18 else 16) }
     let invert := if mode = lzssMODE_MSHELP then 0xFFFFFFFF else 0     -- `~0`
-    match (mainLoop S invert fuel).run.run st with
-    | (.error (.fault f), _) => .error f
-    | (.error (.ret e), st) => .ok ⟨e, st.out.toList, st.src⟩
-    | (.ok (), st) => .ok ⟨.ok, st.out.toList, st.src⟩      -- "not reached" in the C
+    match mainLoop S invert fuel (initSt src inputBufferSize mode) with
+    | .fault f => .error f
+    | .ret e st => .ok ⟨e, st.out.toList, st.src⟩
+    | .ok () st => .ok ⟨.ok, st.out.toList, st.src⟩      -- "not reached" in the C
 
 end MsPack.Lzss
